@@ -17,7 +17,7 @@ use std::collections::HashMap;
 use std::future::Future;
 use std::pin::Pin;
 use std::sync::atomic::{AtomicBool, AtomicU64, Ordering};
-use std::sync::Mutex;
+use std::sync::{Arc, Mutex};
 use std::task::Poll;
 
 use emit::platform::thread_local_ctxt::ThreadLocalCtxt;
@@ -28,46 +28,49 @@ use vh_span::world::*;
 use vh_span::*;
 
 /// The runtime filter: the scripted verdict for span-start events, everything else passes.
-struct ScriptFilter {
+#[derive(Default)]
+struct FilterState {
     verdict: AtomicBool,
     consulted: AtomicU64,
 }
+
+#[derive(Clone)]
+struct ScriptFilter(Arc<FilterState>);
 
 impl Filter for ScriptFilter {
     fn matches<E: emit::event::ToEvent>(&self, evt: E) -> bool {
         let evt = evt.to_event();
         if emit::kind::is_span_filter().matches(&evt) {
-            self.consulted.fetch_add(1, Ordering::Relaxed);
-            self.verdict.load(Ordering::Relaxed)
+            self.0.consulted.fetch_add(1, Ordering::Relaxed);
+            self.0.verdict.load(Ordering::Relaxed)
         } else {
             true
         }
     }
 }
 
-type Rt = Runtime<RecEmitter, ScriptFilter, ThreadLocalCtxt, CounterClock, CounterRng>;
-type F0 = Frame<&'static ThreadLocalCtxt>;
+type F0<R> = Frame<&'static <R as RtT>::C>;
 
-trait GuardObj: Send {
+trait GuardObj<R: RtT>: Send {
     fn start_it(&mut self);
     /// Complete the span inside its frame: by drop, `complete()`, or `complete_with(..)`.
-    fn finish(self: Box<Self>, how: u64, m: &'static M04);
+    fn finish(self: Box<Self>, how: u64, m: &'static M04<R>);
 }
 
-impl<'a, T: emit::Clock + Send, P: emit::Props + Send, C: emit::span::completion::Completion + Send> GuardObj
+impl<'a, R: RtT, T: emit::Clock + Send, P: emit::Props + Send, C: emit::span::completion::Completion + Send> GuardObj<R>
     for SpanGuard<'a, T, P, C>
 {
     fn start_it(&mut self) {
         self.start()
     }
-    fn finish(self: Box<Self>, how: u64, m: &'static M04) {
+    fn finish(self: Box<Self>, how: u64, m: &'static M04<R>) {
         match how % 3 {
             0 => drop(self),
             1 => {
                 (*self).complete();
             }
             _ => {
-                (*self).complete_with(emit::span::completion::default(m.rt.emitter(), m.rt.ctxt()));
+                (*self).complete_with(emit::span::completion::default(m.rt.get().emitter(), m.rt.get().ctxt()));
             }
         }
     }
@@ -108,19 +111,21 @@ fn either(r: Result<Leave, LeaveErr>) -> Leave {
     }
 }
 
-type Guard = Box<dyn GuardObj>;
+type Guard<R> = Box<dyn GuardObj<R>>;
 
-enum SFrame {
-    Plain(F0),
-    Span(F0, Guard),
+enum SFrame<R: RtT> {
+    Plain(F0<R>),
+    Span(F0<R>, Guard<R>),
 }
 
 type Task = Pin<Box<dyn Future<Output = Leave> + Send>>;
 
-struct M04 {
-    rt: Rt,
+struct M04<R: RtT> {
+    rt: &'static R,
+    form: &'static str,
+    fstate: Arc<FilterState>,
     rows: RecEmitter,
-    frames: Mutex<HashMap<u64, SFrame>>,
+    frames: Mutex<HashMap<u64, SFrame<R>>>,
     tasks: Mutex<HashMap<u64, Task>>,
     salt: AtomicU64,
 }
@@ -128,20 +133,20 @@ struct M04 {
 // ---------------------------------------------------------------- macro fixtures
 // Every span node of a program runs one of these; the body calls back into the interpreter.
 
-#[emit::span(rt: m.rt, "sync fn span")]
-fn form_sync_fn(m: &'static M04) -> Leave {
+#[emit::span(rt: m.rt.get(), "sync fn span")]
+fn form_sync_fn<R: RtT>(m: &'static M04<R>) -> Leave {
     reply_ok();
     run_loop(m)
 }
 
-#[emit::info_span(rt: m.rt, "sync fn span with level")]
-fn form_sync_lvl(m: &'static M04) -> Leave {
+#[emit::info_span(rt: m.rt.get(), "sync fn span with level")]
+fn form_sync_lvl<R: RtT>(m: &'static M04<R>) -> Leave {
     reply_ok();
     run_loop(m)
 }
 
-#[emit::span(rt: m.rt, guard: span, "sync fn span with guard")]
-fn form_sync_guard(m: &'static M04) -> Leave {
+#[emit::span(rt: m.rt.get(), guard: span, "sync fn span with guard")]
+fn form_sync_guard<R: RtT>(m: &'static M04<R>) -> Leave {
     reply_ok();
     let l = run_loop(m);
     span.complete();
@@ -149,45 +154,45 @@ fn form_sync_guard(m: &'static M04) -> Leave {
 }
 
 // completion through `complete_with` (the expansion of ok_lvl / err_lvl), Ok and Err results
-#[emit::span(rt: m.rt, ok_lvl: emit::Level::Debug, "sync fn span with Ok result")]
-fn form_sync_result_ok(m: &'static M04) -> Result<Leave, LeaveErr> {
+#[emit::span(rt: m.rt.get(), ok_lvl: emit::Level::Debug, "sync fn span with Ok result")]
+fn form_sync_result_ok<R: RtT>(m: &'static M04<R>) -> Result<Leave, LeaveErr> {
     reply_ok();
     Ok(run_loop(m))
 }
 
-#[emit::span(rt: m.rt, err_lvl: emit::Level::Warn, "sync fn span with Err result")]
-fn form_sync_result_err(m: &'static M04) -> Result<Leave, LeaveErr> {
+#[emit::span(rt: m.rt.get(), err_lvl: emit::Level::Warn, "sync fn span with Err result")]
+fn form_sync_result_err<R: RtT>(m: &'static M04<R>) -> Result<Leave, LeaveErr> {
     reply_ok();
     Err(LeaveErr(run_loop(m)))
 }
 
-#[emit::span(rt: m.rt, guard: span, "sync fn span with guard and complete_with")]
-fn form_sync_guard_with(m: &'static M04) -> Leave {
+#[emit::span(rt: m.rt.get(), guard: span, "sync fn span with guard and complete_with")]
+fn form_sync_guard_with<R: RtT>(m: &'static M04<R>) -> Leave {
     reply_ok();
     let l = run_loop(m);
-    span.complete_with(emit::span::completion::default(m.rt.emitter(), m.rt.ctxt()));
+    span.complete_with(emit::span::completion::default(m.rt.get().emitter(), m.rt.get().ctxt()));
     l
 }
 
-#[emit::span(rt: m.rt, ok_lvl: emit::Level::Info, "async fn span with Ok result")]
-async fn form_async_result_ok(m: &'static M04) -> Result<Leave, LeaveErr> {
+#[emit::span(rt: m.rt.get(), ok_lvl: emit::Level::Info, "async fn span with Ok result")]
+async fn form_async_result_ok<R: RtT>(m: &'static M04<R>) -> Result<Leave, LeaveErr> {
     Ok(ScriptFuture { m }.await)
 }
 
-#[emit::span(rt: m.rt, err_lvl: emit::Level::Error, "async fn span with Err result")]
-async fn form_async_result_err(m: &'static M04) -> Result<Leave, LeaveErr> {
+#[emit::span(rt: m.rt.get(), err_lvl: emit::Level::Error, "async fn span with Err result")]
+async fn form_async_result_err<R: RtT>(m: &'static M04<R>) -> Result<Leave, LeaveErr> {
     Err(LeaveErr(ScriptFuture { m }.await))
 }
 
-#[emit::span(rt: m.rt, guard: span, "async fn span with guard and complete_with")]
-async fn form_async_guard_with(m: &'static M04) -> Leave {
+#[emit::span(rt: m.rt.get(), guard: span, "async fn span with guard and complete_with")]
+async fn form_async_guard_with<R: RtT>(m: &'static M04<R>) -> Leave {
     let l = ScriptFuture { m }.await;
-    span.complete_with(emit::span::completion::default(m.rt.emitter(), m.rt.ctxt()));
+    span.complete_with(emit::span::completion::default(m.rt.get().emitter(), m.rt.get().ctxt()));
     l
 }
 
-fn form_new_span_call(m: &'static M04) -> Leave {
-    let (mut guard, frame) = emit::new_span!(rt: m.rt, "new_span then call");
+fn form_new_span_call<R: RtT>(m: &'static M04<R>) -> Leave {
+    let (mut guard, frame) = emit::new_span!(rt: m.rt.get(), "new_span then call");
     frame.call(move || {
         guard.start();
         reply_ok();
@@ -195,13 +200,13 @@ fn form_new_span_call(m: &'static M04) -> Leave {
     })
 }
 
-fn manual(m: &'static M04, name: &'static str) -> (SpanGuard<'static, &'static CounterClock, emit::Empty, emit::span::completion::Default<'static, &'static RecEmitter, &'static ThreadLocalCtxt>>, F0) {
+fn manual<R: RtT>(m: &'static M04<R>, name: &'static str) -> (SpanGuard<'static, &'static R::T, emit::Empty, emit::span::completion::Default<'static, &'static R::E, &'static R::C>>, F0<R>) {
     SpanGuard::new(
-        m.rt.filter(),
-        m.rt.ctxt(),
-        m.rt.clock(),
-        m.rt.rng(),
-        emit::span::completion::default(m.rt.emitter(), m.rt.ctxt()),
+        m.rt.get().filter(),
+        m.rt.get().ctxt(),
+        m.rt.get().clock(),
+        m.rt.get().rng(),
+        emit::span::completion::default(m.rt.get().emitter(), m.rt.get().ctxt()),
         emit::Empty,
         emit::Path::new_raw("vh_span"),
         name,
@@ -209,7 +214,7 @@ fn manual(m: &'static M04, name: &'static str) -> (SpanGuard<'static, &'static C
     )
 }
 
-fn form_manual_enter(m: &'static M04) -> Leave {
+fn form_manual_enter<R: RtT>(m: &'static M04<R>) -> Leave {
     let (guard, mut frame) = manual(m, "SpanGuard::new then enter");
     let _entered = frame.enter();
     // the guard lives inside the entered frame: declared after the EnterGuard, it is dropped
@@ -222,13 +227,13 @@ fn form_manual_enter(m: &'static M04) -> Leave {
     l
 }
 
-#[emit::span(rt: m.rt, "async fn span")]
-async fn form_async_fn(m: &'static M04) -> Leave {
+#[emit::span(rt: m.rt.get(), "async fn span")]
+async fn form_async_fn<R: RtT>(m: &'static M04<R>) -> Leave {
     ScriptFuture { m }.await
 }
 
-#[emit::debug_span(rt: m.rt, guard: span, "async fn span with guard")]
-async fn form_async_guard(m: &'static M04) -> Leave {
+#[emit::debug_span(rt: m.rt.get(), guard: span, "async fn span with guard")]
+async fn form_async_guard<R: RtT>(m: &'static M04<R>) -> Leave {
     let l = ScriptFuture { m }.await;
     span.complete();
     l
@@ -236,30 +241,17 @@ async fn form_async_guard(m: &'static M04) -> Leave {
 
 // ---------------------------------------------------------------- machine
 
-impl M04 {
-    fn new() -> M04 {
-        let rows = RecEmitter::default();
-        M04 {
-            rt: Runtime::build(
-                rows.clone(),
-                ScriptFilter { verdict: AtomicBool::new(true), consulted: AtomicU64::new(0) },
-                ThreadLocalCtxt::new(),
-                CounterClock(AtomicU64::new(0)),
-                CounterRng(AtomicU64::new(1)),
-            ),
-            rows,
-            frames: Mutex::new(HashMap::new()),
-            tasks: Mutex::new(HashMap::new()),
-            salt: AtomicU64::new(0),
-        }
+impl<R: RtT> M04<R> {
+    fn new(form: &'static str, rt: &'static R, rows: RecEmitter, fstate: Arc<FilterState>) -> M04<R> {
+        M04 { rt, form, fstate, rows, frames: Mutex::new(HashMap::new()), tasks: Mutex::new(HashMap::new()), salt: AtomicU64::new(0) }
     }
 
-    fn take_frame(&self, f: u64) -> SFrame {
+    fn take_frame(&self, f: u64) -> SFrame<R> {
         self.frames.lock().unwrap().remove(&f).unwrap_or_else(|| tool_error(&format!("frame {f} is not idle")))
     }
 
     fn set_verdict(&self, step: &Value) {
-        self.rt.filter().verdict.store(step["v"].as_bool().unwrap_or(true), Ordering::Relaxed);
+        self.fstate.verdict.store(step["v"].as_bool().unwrap_or(true), Ordering::Relaxed);
     }
 
     fn after_nested(&self, leave: Leave) -> Option<Leave> {
@@ -281,7 +273,7 @@ fn ids_of(c: &SpanCtxt) -> Value {
     json!([c.trace_id().map(|t| format!("t:{t}")), c.span_id().map(|s| format!("s:{s}")), c.span_parent().map(|s| format!("s:{s}"))])
 }
 
-impl Machine for M04 {
+impl<R: RtT> Machine for M04<R> {
     fn exec(&'static self, step: &Value) -> Option<Leave> {
         let op = step["op"].as_str().unwrap_or("");
         let salt = self.salt.load(Ordering::Relaxed);
@@ -306,7 +298,7 @@ impl Machine for M04 {
                 let f = step["f"].as_u64().unwrap();
                 let i = step["i"].as_u64().unwrap();
                 let fr = if (salt + i) % 2 == 0 {
-                    let (guard, frame) = emit::new_span!(rt: self.rt, "new_span, entered later");
+                    let (guard, frame) = emit::new_span!(rt: self.rt.get(), "new_span, entered later");
                     SFrame::Span(frame, Box::new(guard))
                 } else {
                     let (guard, frame) = manual(self, "SpanGuard::new, entered later");
@@ -323,7 +315,7 @@ impl Machine for M04 {
                 let sp = Some(step["ids"][1].as_u64().unwrap()).filter(|n| *n != 0).map(incoming_span);
                 let frame = match (salt + f) % 8 {
                     0 => Frame::push(
-                        self.rt.ctxt(),
+                        self.rt.get().ctxt(),
                         [
                             tr.as_ref().map(|t| ("trace_id", emit::Value::from_any(t))),
                             sp.as_ref().map(|s| ("span_id", emit::Value::from_any(s))),
@@ -331,18 +323,18 @@ impl Machine for M04 {
                     ),
                     1 => {
                         let (t, s) = (tr.map(|t| t.to_string()), sp.map(|s| s.to_string()));
-                        Frame::push(self.rt.ctxt(), [t.as_deref().map(|t| ("trace_id", t)), s.as_deref().map(|s| ("span_id", s))])
+                        Frame::push(self.rt.get().ctxt(), [t.as_deref().map(|t| ("trace_id", t)), s.as_deref().map(|s| ("span_id", s))])
                     }
                     2 => Frame::push(
-                        self.rt.ctxt(),
+                        self.rt.get().ctxt(),
                         tr.map(|t| ("trace_id", t.to_u128())).and_props(sp.map(|s| ("span_id", s.to_u64()))),
                     ),
-                    3 => SpanCtxt::new(tr, None, sp).push(self.rt.ctxt()),
+                    3 => SpanCtxt::new(tr, None, sp).push(self.rt.get().ctxt()),
                     4 => {
                         // hex text captured through Display of a foreign id type (not a borrowed str)
                         let (t, s) = (tr.map(|t| ForeignId(t.to_string())), sp.map(|s| ForeignId(s.to_string())));
                         Frame::push(
-                            self.rt.ctxt(),
+                            self.rt.get().ctxt(),
                             [
                                 t.as_ref().map(|t| ("trace_id", emit::Value::capture_display(t))),
                                 s.as_ref().map(|s| ("span_id", emit::Value::capture_display(s))),
@@ -355,7 +347,7 @@ impl Machine for M04 {
                         let (ta, sa) = (t.map(|t| format!("{t:032x}")), s.map(|s| format!("{s:016x}")));
                         let (tf, sf) = (ta.as_ref().map(|t| format_args_owned(t)), sa.as_ref().map(|s| format_args_owned(s)));
                         Frame::push(
-                            self.rt.ctxt(),
+                            self.rt.get().ctxt(),
                             [
                                 tf.as_ref().map(|t| ("trace_id", emit::Value::from_display(t))),
                                 sf.as_ref().map(|s| ("span_id", emit::Value::from_display(s))),
@@ -365,13 +357,13 @@ impl Machine for M04 {
                     6 => {
                         // owned String values
                         let (t, s) = (tr.map(|t| t.to_string()), sp.map(|s| s.to_string()));
-                        Frame::push(self.rt.ctxt(), t.map(|t| ("trace_id", t)).and_props(s.map(|s| ("span_id", s))))
+                        Frame::push(self.rt.get().ctxt(), t.map(|t| ("trace_id", t)).and_props(s.map(|s| ("span_id", s))))
                     }
                     _ => {
                         // typed ids turned into owned values (the type is gone, the text remains)
                         use emit::value::ToValue;
                         let (t, s) = (tr.map(|t| t.to_value().to_owned()), sp.map(|s| s.to_value().to_owned()));
-                        Frame::push(self.rt.ctxt(), [t.map(|t| ("trace_id", t)), s.map(|s| ("span_id", s))])
+                        Frame::push(self.rt.get().ctxt(), [t.map(|t| ("trace_id", t)), s.map(|s| ("span_id", s))])
                     }
                 };
                 self.frames.lock().unwrap().insert(f, SFrame::Plain(frame));
@@ -380,7 +372,7 @@ impl Machine for M04 {
             }
             "current" => {
                 let f = step["f"].as_u64().unwrap();
-                let frame = Frame::current(self.rt.ctxt());
+                let frame = Frame::current(self.rt.get().ctxt());
                 self.frames.lock().unwrap().insert(f, SFrame::Plain(frame));
                 reply_ok();
                 None
@@ -425,7 +417,7 @@ impl Machine for M04 {
             "spawn" => {
                 let f = step["f"].as_u64().unwrap();
                 let k = step["k"].as_u64().unwrap();
-                let m: &'static M04 = self;
+                let m: &'static M04<R> = self;
                 let task: Task = match self.take_frame(f) {
                     SFrame::Plain(frame) => Box::pin(frame.in_future(ScriptFuture { m })),
                     SFrame::Span(frame, mut guard) => Box::pin(frame.in_future(async move {
@@ -476,7 +468,7 @@ impl Machine for M04 {
                 }
             }
             "event" => {
-                emit::emit!(rt: self.rt, "event");
+                emit::emit!(rt: self.rt.get(), "event");
                 reply_ok();
                 None
             }
@@ -488,7 +480,7 @@ impl Machine for M04 {
     }
 
     fn observe(&'static self) -> Value {
-        ids_of(&SpanCtxt::current(self.rt.ctxt()))
+        ids_of(&SpanCtxt::current(self.rt.get().ctxt()))
     }
 }
 
@@ -496,29 +488,30 @@ fn opt(v: &Value) -> Option<String> {
     v.as_str().map(|s| s.to_string())
 }
 
-fn main() {
-    let args: Vec<String> = std::env::args().collect();
-    if args.len() < 3 {
-        tool_error("usage: c04_span <cases.ndjson> <report.json>");
+/// One runtime form with its judge state.
+struct Runner<R: RtT> {
+    m: &'static M04<R>,
+    bij: Bij,
+}
+
+impl<R: RtT> CaseRunner for Runner<R> {
+    fn form(&self) -> &'static str {
+        self.m.form
     }
-    let (cases, out) = (args[1].clone(), args[2].clone());
-    quiet_panics();
-    let rep = drive(
-        &cases,
-        workers_from_env(),
-        |_| -> (&'static M04, Bij) { (Box::leak(Box::new(M04::new())), Bij::default()) },
-        |st, no, case| {
-            let m: &'static M04 = st.0;
-            let bij = &mut st.1;
-            bij.clear();
-            m.salt.store(no as u64, Ordering::Relaxed);
-            m.frames.lock().unwrap().clear();
-            m.tasks.lock().unwrap().clear();
-            m.rows.0.lock().unwrap().clear();
-            let steps = case["steps"].as_array().unwrap_or_else(|| tool_error("case without steps"));
-            let nthreads = steps[0]["exp"].as_array().map(|a| a.len()).unwrap_or(1);
-            let mut consumed = 0usize;
-            let o = run_case(m, nthreads, steps, |_, step, rep, obs| {
+
+    fn run(&mut self, no: usize, case: &Value) -> Outcome {
+        let m: &'static M04<R> = self.m;
+        let form = m.form;
+        let bij = &mut self.bij;
+        bij.clear();
+        m.salt.store(no as u64, Ordering::Relaxed);
+        m.frames.lock().unwrap().clear();
+        m.tasks.lock().unwrap().clear();
+        m.rows.0.lock().unwrap().clear();
+        let steps = case["steps"].as_array().unwrap_or_else(|| tool_error("case without steps"));
+        let nthreads = steps[0]["exp"].as_array().map(|a| a.len()).unwrap_or(1);
+        let mut consumed = 0usize;
+        let mut o = run_case(m, nthreads, steps, |_, step, rep, obs| {
                 if step["op"] == "panic" {
                     if rep["panicked"].as_str() != Some(SCRIPTED_PANIC) {
                         return Some(json!({"what": "scripted panic was not the panic that arrived", "detail": rep}));
@@ -568,10 +561,75 @@ fn main() {
                     }
                 }
                 None
-            });
-            m.frames.lock().unwrap().clear();
-            m.tasks.lock().unwrap().clear();
-            o
+        });
+        if let Some(mm) = o.mismatch.as_mut() {
+            mm["form"] = json!(form);
+        }
+        m.frames.lock().unwrap().clear();
+        m.tasks.lock().unwrap().clear();
+        o
+    }
+}
+
+fn runner<R: RtT>(form: &'static str, rt: &'static R, rows: RecEmitter, fstate: Arc<FilterState>) -> Box<dyn CaseRunner> {
+    Box::new(Runner { m: Box::leak(Box::new(M04::new(form, rt, rows, fstate))), bij: Bij::default() })
+}
+
+/// The context forms (spec constant CtxForms): the same programs must behave the same through
+/// every one of them.
+fn build(form: &str) -> Box<dyn CaseRunner> {
+    let rows = RecEmitter::default();
+    let fstate = Arc::new(FilterState::default());
+    fstate.verdict.store(true, Ordering::Relaxed);
+    let filter = ScriptFilter(fstate.clone());
+    let clock = || CounterClock(AtomicU64::new(0));
+    let rng = || CounterRng(AtomicU64::new(1));
+    let tl = ThreadLocalCtxt::new();
+    fn leak<T>(v: T) -> &'static T {
+        Box::leak(Box::new(v))
+    }
+    match form {
+        "value" => runner("value", leak(Runtime::build(rows.clone(), filter, tl, clock(), rng())), rows, fstate),
+        "ref" => runner("ref", leak(Runtime::build(rows.clone(), filter, leak(tl), clock(), rng())), rows, fstate),
+        "option" => runner("option", leak(Runtime::build(rows.clone(), filter, Some(tl), clock(), rng())), rows, fstate),
+        "box" => runner("box", leak(Runtime::build(rows.clone(), filter, Box::new(tl), clock(), rng())), rows, fstate),
+        "arc" => runner("arc", leak(Runtime::build(rows.clone(), filter, Arc::new(tl), clock(), rng())), rows, fstate),
+        "dyn" => runner(
+            "dyn",
+            leak(Runtime::build(rows.clone(), filter, Box::new(tl) as Box<dyn emit_core::ctxt::ErasedCtxt + Send + Sync>, clock(), rng())),
+            rows,
+            fstate,
+        ),
+        "ambient" => {
+            // the type-erased runtime applications get from emit::setup(), in a fresh slot
+            let slot: &'static emit::runtime::AmbientSlot = leak(emit::runtime::AmbientSlot::new());
+            let _ = emit::setup().emit_to(rows.clone()).emit_when(filter).with_ctxt(tl).with_clock(clock()).with_rng(rng()).init_slot(slot);
+            let rt: &'static emit::runtime::AmbientRuntime<'static> = slot.get();
+            runner("ambient", rt, rows, fstate)
+        }
+        other => tool_error(&format!("unknown context form {other}")),
+    }
+}
+
+fn main() {
+    let args: Vec<String> = std::env::args().collect();
+    if args.len() < 4 {
+        tool_error("usage: c04_span <cases.ndjson> <forms json> <report.json>");
+    }
+    let (cases, forms, out) = (args[1].clone(), args[2].clone(), args[3].clone());
+    quiet_panics();
+    let forms: Vec<String> = serde_json::from_str(&forms).unwrap_or_else(|e| tool_error(&format!("forms: {e}")));
+    if forms.is_empty() {
+        tool_error("no context forms");
+    }
+    let rep = drive(
+        &cases,
+        workers_from_env(),
+        move |_| -> Vec<Box<dyn CaseRunner>> { forms.iter().map(|f| build(f)).collect() },
+        |runners, no, case| {
+            // every program runs through one form; the case number rotates through them
+            let n = runners.len();
+            runners[no % n].run(no, case)
         },
     );
     rep.write(&out);
